@@ -11,7 +11,8 @@
 (* the model's.  With the ledger fields (norm2, tail2, nsv, cap, crit of   *)
 (* every step; eps of every sweep) the accuracy ledger of spec/Dmrg.tla is *)
 (* checked as well: LastChop on the final sweep, Converged whenever `last` *)
-(* was set.                                                                *)
+(* was set.  A sweep may run in either direction (Dmrg.tla): the hooks of  *)
+(* the mirrored routine report the same fields.                            *)
 (***************************************************************************)
 EXTENDS Dmrg, Json, IOUtils
 
@@ -29,26 +30,32 @@ DeclaredAfter(s) == \/ \E j \in 1..Len(T.ev) : T.ev[j].sweep = s + 1 /\ T.ev[j].
                     \/ (T.end.sweeps = s + 1 /\ T.end.last /\ \A j \in 1..Len(T.ev) : T.ev[j].sweep = s => ~T.ev[j].last)
 Init == tid \in 1..NT /\ l = 1 /\ Ry = Traces[tid].Ry /\ wasLast = FALSE
 
+\* position of event l inside its sweep (every sweep has d-1 steps) and the direction of that sweep: read off the position of the
+\* sweep's first step (0: left to right, d-2: right to left; a single supercore, d = 2, fits both)
+Pos == (l - 1) % (d - 1)
+Dirs == IF d = 2 THEN {"lr", "rl"}
+        ELSE IF T.ev[l - Pos].k = 0 THEN {"lr"} ELSE IF T.ev[l - Pos].k = d - 2 THEN {"rl"} ELSE {}
 Next ==
     /\ l <= Len(T.ev)
-    /\ LET e == T.ev[l]
-           r0 == IF e.k = 0 THEN Orth(T.M, Ry) ELSE Ry          \* a sweep begins with the orthogonalisation pass
+    /\ \E dir \in Dirs :
+       LET e == T.ev[l]
+           r0 == IF Pos = 0 THEN OrthD(dir, T.M, Ry) ELSE Ry     \* a sweep begins with the orthogonalisation pass
            rows == Rows(T.M, r0, e.k)  cols == Cols(T.M, r0, e.k) IN
-       /\ e.k >= 0 /\ e.k <= d - 2 /\ e.sweep >= 0 /\ e.sweep <= T.nswp - 1
-       /\ (l > 1 => IF e.k = 0 THEN T.ev[l - 1].k = d - 2 /\ e.sweep = T.ev[l - 1].sweep + 1
-                              ELSE e.k = T.ev[l - 1].k + 1 /\ e.sweep = T.ev[l - 1].sweep)
-       /\ (l = 1 => e.k = 0 /\ e.sweep = 0)
+       /\ e.k = KAt(dir, d, Pos)                                  \* the bonds in the sweep's order, each once
+       /\ e.sweep >= 0 /\ e.sweep <= T.nswp - 1
+       /\ (l > 1 => e.sweep = T.ev[l - 1].sweep + (IF Pos = 0 THEN 1 ELSE 0))
+       /\ (l = 1 => e.sweep = 0)
        /\ e.rows = rows /\ e.cols = cols
        /\ e.r_svd >= 1 /\ e.r_svd <= Min2(rows, cols)
-       /\ e.r_out = StepOut(rows, e.r_svd, T.kick, e.sweep = T.nswp - 1)
+       /\ e.r_out = StepOutD(dir, rows, cols, e.r_svd, T.kick, e.sweep = T.nswp - 1)
        /\ (wasLast => e.last)                                     \* `last` never goes back ...
-       /\ (wasLast /\ e.k = 0 => FALSE)                           \* ... and the sweep that ran with last = TRUE is the final one
+       /\ (wasLast /\ Pos = 0 => FALSE)                          \* ... and the sweep that ran with last = TRUE is the final one
        /\ ("tail2_L" \in DOMAIN e /\ e.last /\ e.r_svd < e.cap /\ e.r_svd < e.nsv                   \* LastChop
              => LastChopOK(e.tail2_L, e.norm2_L, EpsL, T.dm1_L))
-       /\ ("crit_L" \in DOMAIN e /\ e.k = d - 2 /\ ~e.last /\ DeclaredAfter(e.sweep)                \* Converged
+       /\ ("crit_L" \in DOMAIN e /\ Pos = d - 2 /\ ~e.last /\ DeclaredAfter(e.sweep)                \* Converged
              => \A j \in (l - (d - 2))..l : SmallCrit(T.ev[j].crit_L, EpsL))
        /\ Ry' = [r0 EXCEPT ![e.k + 2] = e.r_out]
-       /\ wasLast' = (IF e.k = d - 2 THEN e.last ELSE wasLast)
+       /\ wasLast' = (IF Pos = d - 2 THEN e.last ELSE wasLast)
     /\ l' = l + 1
     /\ (TLCGet(tid) < l => TLCSet(tid, l))
     /\ UNCHANGED tid
